@@ -6,7 +6,7 @@ package coroutines
 // from this file with or without the tag. Syntax: see /verif/DESIGN.md.
 
 //@ func ReadPromise
-//@ props C01 C02 C04
+//@ props C01 C02 C04 C20
 //@ ghostdb coroutine
 //@ nopanic C13
 //@ requires c != nil && r != nil && r.ReadPromise != nil
@@ -15,7 +15,7 @@ package coroutines
 //@ ensures err == nil ==> linearizes(res.ReadPromise.Status == seq.read.status(pre_promises(r.ReadPromise.Id)) && post_promises(r.ReadPromise.Id) == p.effective(pre_promises(r.ReadPromise.Id), T) && (res.ReadPromise.Status == t_api.StatusOK ==> res.ReadPromise.Promise != nil && pview(res.ReadPromise.Promise) == pview.row(p.effective(pre_promises(r.ReadPromise.Id), T))))
 
 //@ func CompletePromise
-//@ props C01 C02 C03 C04
+//@ props C01 C02 C03 C04 C20
 //@ serves C06
 //@ ghostdb coroutine
 //@ nopanic C13
@@ -28,7 +28,7 @@ package coroutines
 //@ macro create_post(status, shown, req) linearizes((!pre_promises(req.Id).present ==> status == t_api.StatusCreated && seq.create.row.ok(post_promises(req.Id), req.Id, req.Param.Headers, req.Param.Data, req.Timeout, opt(req.IdempotencyKey), req.Tags, T)) && (pre_promises(req.Id).present ==> status == seq.create.status.exists(pre_promises(req.Id), T, opt(req.IdempotencyKey), req.Strict) && post_promises(req.Id) == p.effective(pre_promises(req.Id), T)) && shown != nil && pview(shown) == pview.row(post_promises(req.Id)))
 
 //@ func createPromiseAndTask
-//@ props C01 C02 C03 C04 C08
+//@ props C01 C02 C03 C04 C08 C20
 //@ serves C06
 //@ ghostdb coroutine
 //@ nopanic C13
@@ -55,7 +55,7 @@ package coroutines
 //@ ensures err == nil ==> res.Kind == t_api.CreatePromiseAndTask && res.CreatePromiseAndTask != nil
 
 //@ func CreatePromise
-//@ props C01 C02 C03 C04 C08
+//@ props C01 C02 C03 C04 C08 C20
 //@ serves C06
 //@ ghostdb coroutine
 //@ nopanic C13
@@ -92,7 +92,7 @@ package coroutines
 //@ ensures err == nil ==> linearizes(post_locks(anykey("hb")) == spec.HeartbeatLocks.locks(pre_locks(anykey("hb")), anykey("hb"), r.HeartbeatLocks.ProcessId, T) && res.HeartbeatLocks.LocksAffected == count_pre("locks", "lock.ofproc", r.HeartbeatLocks.ProcessId))
 
 //@ func ClaimTask
-//@ props C02 C07
+//@ props C02 C07 C20
 //@ ghostdb coroutine
 //@ nopanic C13
 //@ overflow C07
